@@ -846,6 +846,19 @@ func ruleRoute(p *Prog, r *Report) {
 // which tag it is. Every return of addTagBuffer that is not preceded by a store of the tag into the queue must
 // depend only on conditions over offsets, the fill level and the log level.
 func ruleRouteQueue(p *Prog, r *Report) {
+	// room is made before a sub-directory is read: resetPosition compacts in every legal state of the queue
+	{
+		key := "exif2.(*buffer).resetPosition | consumed tags are dropped whenever 0 < pos <= len <= cap"
+		at := "-"
+		if g := p.Func("exif2", "*buffer", "resetPosition"); g != nil {
+			at = p.posStr(g.Pos())
+		}
+		if w := queueCompacts(p); w != "" {
+			r.Bad("ROUTE", key, at, w+": the queue stays full, addTagBuffer declines the tags of the sub-directory and their values are silently lost")
+		} else {
+			r.OK("ROUTE", key, at, "under 0 < pos <= len <= cap(tag) every path stores pos = 0 (the compaction) before it returns")
+		}
+	}
 	f := p.Func("exif2", "*ifdReader", "addTagBuffer")
 	key := "exif2.(*ifdReader).addTagBuffer | a tag is declined only for its offset or a full queue"
 	if f == nil || len(f.Params) < 2 {
@@ -1018,6 +1031,29 @@ func nonNilZone(p *Prog, v ssa.Value, d int, seen map[ssa.Value]bool) string {
 		if x.Op == token.MUL {
 			if ia, ok := x.X.(*ssa.IndexAddr); ok {
 				return tableAllNonNil(p, ia.X, d, seen)
+			}
+			// a local cell (a result spilled because of a defer): every store into it must be non-nil
+			if al, ok := x.X.(*ssa.Alloc); ok {
+				n := 0
+				for _, rf := range refs(al) {
+					switch u := rf.(type) {
+					case *ssa.Store:
+						if u.Addr != ssa.Value(al) {
+							return "a local whose address is stored"
+						}
+						n++
+						if w := nonNilZone(p, u.Val, d+1, seen); w != "" {
+							return w
+						}
+					case *ssa.UnOp, *ssa.DebugRef:
+					default:
+						return "a local whose address escapes"
+					}
+				}
+				if n == 0 {
+					return "a local that is never assigned"
+				}
+				return ""
 			}
 		}
 	case *ssa.Index:
